@@ -3,11 +3,15 @@
 import json, os
 V = os.path.dirname(os.path.dirname(os.path.abspath(__file__)))
 rows = []
+benign = []
 for d in sorted(os.listdir(V + '/seeded')):
     p = '%s/seeded/%s/meta.json' % (V, d)
     if not os.path.exists(p):
         continue
     m = json.load(open(p))
+    if d.startswith('benign'):
+        benign.append('| %s | %s | %s |' % (d, m['what'], m['result']))
+        continue
     res = []
     for l in m['checks_run_against_it']:
         if l.startswith('=='):
@@ -33,5 +37,11 @@ sub-agents that saw only the property text and a scratch worktree (nothing from 
 
 | id | property | what it needs to manifest | quick checks run against it |
 |---|---|---|---|
-""" + '\n'.join(rows) + "\n")
+""" + '\n'.join(rows) + """
+
+## Behaviour-preserving refactors (false-alarm tests)
+
+| id | what | result |
+|---|---|---|
+""" + '\n'.join(benign) + "\n")
 print(len(rows), "rows")
